@@ -241,6 +241,7 @@ def rule_accessors(ctx):
                 # the raise must be reachable without any deletion/return of an item: i.e. not dominated by extra lookups
                 pass
             cd = ControlDependence(cfg)
+            idx_names = {idx for (_, _, idx, _) in loops if idx}
             for c in [c for c in walk_shallow(fi.node) if isinstance(c, ast.Call) and _is_super_call(c, mname)]:
                 if c.args and isinstance(c.args[0], ast.Name) and c.args[0].id == key:
                     nids = cfg.node_of_expr(c)
@@ -254,6 +255,19 @@ def rule_accessors(ctx):
                                 guarded = True
                     if not guarded:
                         problems.append((c, "list.%s(key) is not confined to integer/slice keys" % mname))
+                elif c.args and not (isinstance(c.args[0], ast.Name) and c.args[0].id in idx_names):
+                    # a positional fall-through on something computed from the key (int(key), key + 0 ...): strings that look
+                    # like numbers become positions
+                    arg = c.args[0]
+                    if isinstance(arg, ast.Name):
+                        dfs = [s_.value for s_ in walk_shallow(fi.node) if isinstance(s_, ast.Assign) and any(
+                            isinstance(t, ast.Name) and t.id == arg.id for t in s_.targets)]
+                    else:
+                        dfs = [arg]
+                    if any(isinstance(x, ast.Name) and x.id == key for d in dfs for x in ast.walk(d)):
+                        problems.append((c, "list.%s is called with `%s`, a position computed from the key: a missing string key such "
+                                            "as '1' is silently treated as an index (and `in`/get() disagree with item access)"
+                                         % (mname, unparse(dfs[0]))))
         if mname == "__contains__":
             rets = [s for s in walk_shallow(fi.node) if isinstance(s, ast.Return)]
             if not any(isinstance(r_.value, ast.Constant) and r_.value.value is False for r_ in rets):
@@ -1064,3 +1078,68 @@ def rule_pk_independent(ctx):
                       "does not copy an ndarray, so the copy shares the curve array with the original and editing one changes "
                       "the other" % (cls.name, sorted(set(calls))))
     ctx.floor("PK.INDEPENDENT", 4)
+
+
+def rule_pk_list_restore(ctx):
+    """PK.LIST-RESTORE: SectionItems is a list subclass whose append()/insert() re-assign duplicate suffixes.  The generic
+    copy protocols re-insert the items of a list subclass through fixed methods of the *copy* - copy._reconstruct through
+    y.append(item) (deepcopy), the unpickler through extend(items) (protocol >= 2; protocols 0/1 call list.__init__) -
+    so a hook on that path renumbers session mnemonics that the copy must keep (RHO:2, RHO:3 -> RHO:1, RHO:2)."""
+    p = ctx.p
+    r = get_resolver(p)
+    cls = p.cls(SI)
+    if not any(b.split(".")[-1] == "list" for b in cls.base_names):
+        ctx.undecided("PK.LIST-RESTORE", SI + "#restore", None, cls.node, "SectionItems is no longer a list subclass")
+        return
+
+    def hooked(mname):
+        fi = cls.methods.get(mname)
+        if fi is None:
+            return None
+        clos = r.closure([fi])
+        if any(f.qual.endswith(".assign_duplicate_suffixes") or f.qual.endswith(".set_session_mnemonic_only") for f in clos.values()):
+            return fi
+        # a loop over self.append / self.insert re-enters the hooks
+        return None
+    red = cls.methods.get("__reduce__") or cls.methods.get("__reduce_ex__")
+    # deepcopy path
+    ap = hooked("append")
+    dc = cls.methods.get("__deepcopy__")
+    site = SI + "#deepcopy-path"
+    if ap is None:
+        ctx.ok("PK.LIST-RESTORE", site, cls.methods.get("append") or next(iter(cls.methods.values())), cls.node,
+               "append() carries no renumbering hook: the generic deepcopy re-appends the items unchanged")
+    elif dc is None and red is None:
+        ctx.bad("PK.LIST-RESTORE", site, ap, ap.node, "copy.deepcopy rebuilds a SectionItems through its append(), which calls "
+                "assign_duplicate_suffixes: session mnemonics that are not numbered 1..n (after a deletion) or that were set "
+                "explicitly are renumbered in the copy; define __deepcopy__ (or __reduce__) that restores the items without the hook")
+    elif dc is not None:
+        clos = r.closure([dc])
+        via = [f.qual for f in clos.values() if f.cls is cls and f.name in ("append", "insert", "extend", "assign_duplicate_suffixes", "set_item", "__setitem__")]
+        direct = [unparse(c) for c in walk_shallow(dc.node) if isinstance(c, ast.Call) and isinstance(c.func, ast.Attribute)
+                  and c.func.attr in ("append", "insert", "extend", "assign_duplicate_suffixes") and not (
+                      isinstance(c.func.value, ast.Name) and c.func.value.id == "list") and not _is_super_call(c, None)]
+        ctx.check(not via and not direct, "PK.LIST-RESTORE", site, dc, dc.node,
+                  "__deepcopy__ restores the items through list.extend/super(): no duplicate-suffix hook runs on the copy",
+                  "__deepcopy__ fills the copy through %s: the renumbering hook runs on the copy" % (direct or via))
+    else:
+        ctx.ok("PK.LIST-RESTORE", site, red, red.node, "reconstruction is defined by %s" % red.name)
+    # pickle path
+    ex = hooked("extend") or hooked("__iadd__")
+    site = SI + "#pickle-path"
+    if ex is not None and red is None:
+        ctx.bad("PK.LIST-RESTORE", site, ex, ex.node, "the unpickler (protocol >= 2) refills a list subclass through extend() before "
+                "the instance state is restored; SectionItems.%s re-assigns duplicate suffixes (with mnemonic_transforms not yet "
+                "set), so an unpickled section is renumbered" % ex.name)
+    else:
+        # an extend() override that loops over self.append is hooked through append
+        exf = cls.methods.get("extend")
+        loops = exf is not None and any(isinstance(c, ast.Call) and isinstance(c.func, ast.Attribute) and c.func.attr in ("append", "insert")
+                                        and isinstance(c.func.value, ast.Name) and c.func.value.id == "self" for c in walk_shallow(exf.node))
+        if loops and ap is not None and red is None:
+            ctx.bad("PK.LIST-RESTORE", site, exf, exf.node, "SectionItems.extend() re-enters the hooked append(): the unpickler (protocol "
+                    ">= 2) refills the section through extend() before its state is restored, so an unpickled section is renumbered")
+        else:
+            ctx.ok("PK.LIST-RESTORE", site, exf or next(iter(cls.methods.values())), cls.node,
+                   "the unpickler refills the section through list.extend (not overridden with a hook) or a custom __reduce__")
+    ctx.floor("PK.LIST-RESTORE", 2)
